@@ -572,3 +572,38 @@ def token_lists_convert_item_by_item(ctx: Ctx) -> None:
                        construct="token item dispatch", msg="a converter resolved from the first token is applied to all: [1, True] renders as '1 True', [2, Occurs.UNBOUNDED] as '2 Occurs.UNBOUNDED'")
     if not n:
         ctx.abstain("item conversion calls in the list branch of serialize", at=fi)
+
+
+@rule("C05.R10")
+def period_kind_is_decided_by_presence_of_the_year(ctx: Ctx) -> None:
+    """period_datatype (the xsi:type written for an XmlPeriod in an untyped field): a period that HAS a year - year 0 included, a legal
+    XSD 1.1 year - is a gYear / gYearMonth; the month / day kinds are for periods without a year.  The decision is `year is not None`,
+    never the truthiness of the year."""
+    from ..q import reach_table as _rt
+
+    fi = ctx.repo.func("xsdata.models.enums:period_datatype")
+    ps = [a.arg for a in fi.params]
+    if len(ps) != 1:
+        ctx.abstain("parameter of period_datatype", at=fi)
+        return
+    p = ps[0]
+    g = build_cfg(fi.node)
+    done = 0
+    for r in g.returns():
+        if r.ast is None or r.ast.value is None:
+            continue
+        t = ast.unparse(r.ast.value)
+        if not t.startswith("DataType.G_"):
+            continue
+        tab = _rt(fi, r, [{f"{p}.year is not None": True, f"{p}.year is None": False}, {f"{p}.year": True}], raw=True)
+        if tab is None:
+            ctx.abstain(f"year test guarding `return {t}`", at=fi)
+            continue
+        done += 1
+        yearly = "YEAR" in t
+        # a year kind is reachable for a present-but-zero year; a year-less kind is not
+        ok = tab[(True, False)] if yearly else (not tab[(True, False)] and not tab[(True, True)])
+        ctx.ob(f"period_datatype: `{t}` is chosen by `year is not None` (a period with year 0 is a year kind)", ok, at=fi, node=r.ast, construct=f"period kind {t.split('.')[-1]}",
+               msg=f"(year is not None, year is truthy) -> reachable: {sorted(tab.items())}: XmlPeriod('0000') / ('0000-05') are written with xsi:type gDay / gMonth, for which '0000' / '0000-05' are not valid lexical forms")
+    if not done:
+        ctx.abstain("return kinds of period_datatype", at=fi, why="no `return DataType.G_*` with a readable year test")
